@@ -363,7 +363,8 @@ def check_c18(m, tier, seed):
     scale = float(os.environ.get("VERIF_SCALE", "1"))
     arenas = int((3000 if thorough else 400) * scale) + 1
     binary = os.path.join(m.BUILD, "par", "debug", "readers")
-    rc, out, dt = m.run([binary, "--seed", str(seed), "--arenas", str(arenas), "--len", "250", "--max-live", "48", "--reps", "4" if thorough else "3"],
+    rc, out, dt = m.run([binary, "--seed", str(seed), "--arenas", str(arenas), "--len", "250", "--max-live", "48", "--reps", "4" if thorough else "3",
+                         "--big", str(int((120000 if thorough else 30000) * min(scale, 1.0)) + 5000)],
                         cwd=m.VERIF, timeout=3000)
     native = None
     for l in out.splitlines():
@@ -414,7 +415,7 @@ def check_c18(m, tier, seed):
             tenv["TSAN_OPTIONS"] = "halt_on_error=0:exitcode=66"
             first = ""
             for rep in range(20):
-                rc, out, dt = m.run([tb, "--seed", str(seed * 1000 + rep), "--arenas", "40", "--len", "250", "--max-live", "48"], cwd=m.VERIF, env=tenv, timeout=1200)
+                rc, out, dt = m.run([tb, "--seed", str(seed * 1000 + rep), "--arenas", "40", "--len", "250", "--max-live", "48", "--big", "9000"], cwd=m.VERIF, env=tenv, timeout=1200)
                 n = out.count("WARNING: ThreadSanitizer")
                 reports += n
                 reps_done += 1
